@@ -123,8 +123,14 @@ class EndpointsEmitter:
         for op in operations:
             method_name = NameSanitizer.sanitize_method_name(op.operation_id)
             if method_name in seen_methods:
-                seen_methods[method_name] += 1
-                new_op_id = f"{op.operation_id}_{seen_methods[method_name]}"
+                # Take the next suffix whose method name is still free and reserve that name as well
+                while True:
+                    seen_methods[method_name] += 1
+                    new_op_id = f"{op.operation_id}_{seen_methods[method_name]}"
+                    new_method_name = NameSanitizer.sanitize_method_name(new_op_id)
+                    if new_method_name not in seen_methods:
+                        break
+                seen_methods[new_method_name] = 1
                 op.operation_id = new_op_id
             else:
                 seen_methods[method_name] = 1
